@@ -31,6 +31,7 @@ var (
 	prefix  int
 	mutN    int
 	tempN   int
+	dead    bool // the simulated process has been killed: nothing it does any more reaches the file system
 	open    = map[*os.File]bool{}
 	// SigKill: instead of raising the sentinel, kill the process for real (cross-check mode).
 	SigKill bool
@@ -40,7 +41,7 @@ var (
 func Begin(crashStep, crashPrefix int, logging bool) {
 	mu.Lock()
 	defer mu.Unlock()
-	log, logOn, crashAt, prefix, mutN, tempN = nil, logging, crashStep, crashPrefix, 0, 0
+	log, logOn, crashAt, prefix, mutN, tempN, dead = nil, logging, crashStep, crashPrefix, 0, 0, false
 }
 
 // NextTemp numbers the temporary files created through the seam since Begin: their names are a
@@ -61,7 +62,7 @@ func End() []Event {
 		f.Close()
 	}
 	open = map[*os.File]bool{}
-	crashAt = -1
+	crashAt, dead = -1, false
 	l := log
 	log, logOn = nil, false
 	return l
@@ -95,6 +96,11 @@ func Note(op, path string) {
 func Mut(op, path, path2 string, n int) (int, bool) {
 	mu.Lock()
 	defer mu.Unlock()
+	if dead {
+		// deferred functions of the killed "process" run while the sentinel unwinds its stack (a real
+		// SIGKILL runs none): whatever they try is not performed, the unwinding goes on
+		return 0, true
+	}
 	step := mutN
 	mutN++
 	if logOn {
@@ -109,6 +115,7 @@ func Mut(op, path, path2 string, n int) (int, bool) {
 func Die() {
 	mu.Lock()
 	s, p := crashAt, prefix
+	dead = true
 	mu.Unlock()
 	if SigKill {
 		pr, _ := os.FindProcess(os.Getpid())
